@@ -344,6 +344,17 @@ def F1(ctx: Ctx) -> RuleResult:
         r.fail('boolean', f'lexeme -> value map is {vals}, expected True->True, False->False', fi.where)
     fi, outs, _ = callback_outcomes(ctx, 'number')
     n += 1
+    # the conversion may sit in a helper (function or method of the transformer) that is handed the lexeme
+    for _ in range(2):
+        if len(outs) == 1 and outs[0].kind == 'return' and isinstance(outs[0].value, Call) and isinstance(outs[0].value.func, (FuncRef, BoundMethod)) \
+                and outs[0].value.args == (C(0),) and not outs[0].value.kwargs:
+            hf = parser_eval(ctx).callee(outs[0].value.func)
+            if hf is not None:
+                hp = [p_ for p_ in hf.params() if not (p_ == 'self' and hf.cls is not None)]
+                if len(hp) == 1:
+                    outs = parser_eval(ctx).run(hf, {hp[0]: C(0)})
+                    continue
+        break
     ok = bool(outs)
     for o in outs:
         v = o.value.get('value') if isinstance(o.value, New) else None
